@@ -523,12 +523,24 @@ def model_line(job, it, obs):
     if k == "onpt":
         o = O[str(it["vid"])]
         base = it["base"] if it["base"] is not None else [0.0, 0.0, -it["dims"][2] / 2]
-        off = norm(sub([0.0, 0.0, it["ct"] / 2], base)) if it["how"] != "in-ps" else 0.0
-        pt = min(it["pts"], key=lambda q: abs(norm(sub(o["pos"], q)) - off))
-        F = [0.0, 0.0, 0.0] if it["how"] in ("vec", "on-ps-plain") else field_eval(fd, pt)
-        if F is None:
-            return None, None
-        it["pt"], it["F"], it["mode"] = pt, F, {"vec": 0, "on-ps-plain": 0, "on-ps": 1, "in-ps": 2}[it["how"]]
+        mode = {"vec": 0, "on-ps-plain": 0, "on-ps": 1, "in-ps": 2}[it["how"]]
+        offl = sub([0.0, 0.0, it["ct"] / 2], base) if mode < 2 else [0.0, 0.0, 0.0]
+        # which point of the set was sampled (recorded choice, like a random draw); the point whose field value
+        # was used for the orientation is identified separately: they must be the same point (oracle below)
+        best = None
+        pairs = [(a_, a_) for a_ in it["pts"]] + [(a_, b_) for a_ in it["pts"] for b_ in it["pts"] if a_ is not b_]
+        for a_, b_ in pairs:      # consistent pairs first; an inconsistent one must be strictly better
+            Fb = [0.0, 0.0, 0.0] if mode == 0 else field_eval(fd, b_)
+            if Fb is None:
+                return None, None
+            e = norm(sub(o["pos"], [x + y for x, y in zip(a_, q_rot(q_euler(Fb), offl))]))
+            if mode > 0:
+                qb = q_euler(Fb)
+                e += min(norm(sub(o["pq"], qb)), norm(sub(o["pq"], [-x for x in qb])))
+            if best is None or e < best[0] - 1e-7:
+                best = (e, a_, b_, Fb)
+        _, pt, pto, F = best
+        it["pt"], it["pto"], it["F"], it["mode"] = pt, pto, F, mode
         return 12, list(pt) + eul(F) + [it["ct"]] + base + [it["mode"]]
     raise ValueError(k)
 
@@ -866,6 +878,15 @@ def evaluate(c, job, it, obs, m):
             corr(f"position of `{it['how']}`", o["pos"], m[0:3])
         if not qclose(m[3:7], o["pq"]):
             corr(f"parentOrientation of `{it['how']}`", o["pq"], m[3:7])
+        c.hist(f"on:{it['how']}:" + ("default-base" if it["base"] is None else "base"))
+        if it["pto"] is not it["pt"] and vclose(o["pos"], want, 50) and qclose(o["pq"], fq):
+            # exactly explained by: the orientation (and the rotation of the contact offset) were taken from the
+            # region's orientation at ANOTHER point of the region than the one the object was put on
+            oracle("on-resampled", f"`{it['how']}`: the object is placed at one sampled point of the region but gets the parentOrientation "
+                   "(and contact-offset rotation) of the region's orientation at a different, independently sampled point",
+                   impl=o["pq"], documented=q_euler(field_eval(fd, it["pt"])), placed_on=it["pt"], orientation_from=it["pto"],
+                   orientation_from_other_point=True)
+            return True
         if not vclose(o["pos"], want, 50):
             oracle("on", f"`{it['how']}`: position is not the surface point plus the contact offset ((0,0,contactTolerance/2) - baseOffset) in the surface's orientation",
                    impl=o["pos"], documented=want)
@@ -877,7 +898,6 @@ def evaluate(c, job, it, obs, m):
             if not close(low, it["ct"] / 2, 50):
                 oracle("gap", f"`{it['how']}`: the bounding box is {low!r} above the surface point along the surface normal, documented {it['ct'] / 2!r}",
                        gap=low, documented=it["ct"] / 2)
-        c.hist(f"on:{it['how']}:" + ("default-base" if it["base"] is None else "base"))
         return it["mode"] == 0 or tilted(it["F"])
     raise ValueError(k)
 
